@@ -802,6 +802,11 @@ def place(shape, ctx):
         from ..universe import _admits_null
         if _admits_null(shape["schema"], {}):
             return None   # null would match both branches of the wrapping union: not a coherent schema
+        if "not" in shape["schema"] and "type" not in shape["schema"]:
+            # an untyped negation admits whatever its operand rejects - null included, unless the operand accepts null
+            import jsonschema
+            if jsonschema.Draft7Validator({"allOf": [shape["schema"]], "definitions": shape.get("defs") or {}}).is_valid(None):
+                return None
     doc = ctx["build"](copy.deepcopy(shape["schema"]))
     if doc is None:
         return None
